@@ -148,6 +148,10 @@ def table():
                T("enum {S}{G}{W} {{ {V}({C}), @[%s(\"{{%s}} {{y}}\")] B {{ {F}: {C}, y: {C} }}, @[%s(\"c\")] Cc }}" % (a, "{Fl}", a)),
                T("@[%s(\"<{{_variant}}>\")] enum {S}{G}{W} {{ {V}({C}), @[%s(\"c\")] Cc }}" % (a, a)),
                T("@[%s(\"dflt\")] enum {S}{G}{W} {{ {V}({C}), @[%s(\"c\")] Cc }}" % (a, a)),
+               # enum-level formats that name a field of every variant (their bounds come from a separate code path)
+               T("@[%s(\"s {{_0}}\")] enum {S}{G}{W} {{ {V}({C}), B({C}) }}" % a, note="shared default naming a field"),
+               T("@[%s(\"{{_variant}}: {{_0}}\")] enum {S}{G}{W} {{ @[%s(\"v\")] {V}({C}), @[%s(\"w\")] B({C}) }}" % (a, a, a), note="wrapping shared format naming a field"),
+               T("@[%s(\"{{_variant}} / {{%s}}\")] enum {S}{G}{W} {{ @[%s(\"v\")] {V} {{ {F}: {C} }} }}" % (a, "{Fl}", a), note="wrapping shared format naming a named field"),
                T("@[%s(\"{{_0}}\")] @[%s(bound({C}: Clone))] " % (a, a) + s1),
                T("@[%s(\"u\")] union {S}{G}{W} {{ {F}: u8, other: PhantomData<{C}> }}" % a),
                T("@[%s(\"unit\")] struct {S};" % a, gens=["none"]),
@@ -324,15 +328,18 @@ def build(thorough):
     gens = [g for g in GENS if thorough or g["name"] in QUICK_GENS]
     plain = ("Sx", "Aa", "fx")
     raw = ("r#type", "r#fn", "r#loop")
+    # names that coincide with the associated items of the derived traits (`Self::Output`, `Self::Target`, `Self::Error`, `Self::Err`,
+    # `Self::Item`, `Self::IntoIter`): a variant of that name makes `Self::X` ambiguous inside the generated impl
+    assoc = (("Item", "Output", "target"), ("Target", "Error", "output"), ("IntoIter", "Err", "item"), ("Output", "Target", "error"), ("Error", "Item", "into_iter"))
     cases, metas, reqs = [], [], []
     for derive, tmpls in tab.items():
         for ti, tmpl in enumerate(tmpls):
             for g in gens:
-                for names in ((plain, raw) if g["name"] in ("none", "full") else (plain,)):
+                for names in ((plain, raw) + assoc if g["name"] == "none" else ((plain, raw) if g["name"] == "full" else (plain,))):
                     for deco in DECOS:
                         if deco != "none" and g["name"] not in ("none", "lt_ty_const", "full"):
                             continue
-                        if deco != "none" and names is raw:
+                        if deco != "none" and names is not plain:
                             continue
                         inst = instantiate(tmpl, g, names, deco)
                         if inst is None:
@@ -350,7 +357,7 @@ def build(thorough):
                         cid = "c%d" % len(cases)
                         dline = "#[derive(derive_more::%s)] " % derive
                         mod = "#[allow(unused_imports)] use super::*;\n%s%s" % (dline, real)
-                        cases.append(Case(cid, mod, has_run=False, meta=dict(derive=derive, tmpl=ti, gen=g["name"], raw=names is raw, deco=deco, src=dline + real, twin=twin)))
+                        cases.append(Case(cid, mod, has_run=False, meta=dict(derive=derive, tmpl=ti, gen=g["name"], raw=names is not plain, deco=deco, src=dline + real, twin=twin)))
                         # seam A gets only the item the derive is applied to (last item of the text)
                         last = real[real.rindex("#[derive(derive_more::"):] if "#[derive(derive_more::" in real else real
                         item_only = re.sub(r"^#\[derive\(derive_more::\w+\)\] ", "", last) if last is not real else real
@@ -363,7 +370,7 @@ def run(chk, tier):
     thorough = tier == "thorough"
     tab, gens, cases, metas, reqs = build(thorough)
     chk.part("space", programs=len(cases), derives=len(tab), templates=sum(len(v) for v in tab.values()), generics=[g["name"] for g in gens],
-             naming=["plain", "raw identifiers (type, variant, field)"], decorations=list(DECOS))
+             naming=["plain", "raw identifiers (type, variant, field)", "names of the derived traits' associated items (Output, Target, Error, Err, Item, IntoIter)"], decorations=list(DECOS))
     # ---------------- seam A
     res = svc(reqs)
     for (cid, g), q, r, c in zip(metas, reqs, res, cases):
